@@ -9,6 +9,7 @@ import StepModel.GenSelectOrder
 import StepModel.GenPyModule
 import StepModel.GenPyModuleLemmas
 import StepModel.GenPyModuleEntityLemmas
+import StepModel.GenPyModuleEntityTermination
 import StepModel.Generated.GenInitGen
 /-!
 # C12 — generators and the pretty printer are deterministic functions of their input
@@ -297,6 +298,22 @@ theorem C12_python_module_defines_each_name_once (types : List PyModule.T) (es :
       simp only [List.append_assoc]
     rw [← c]
     exact h3
+
+/-- **… and the walk does return**: with `|entities| + 1` levels of recursion `SCOPEget_entities_superclass_order` never runs out of
+    depth, for any supertype graph (circles included) and any roots — so for every schema with distinct type names and distinct
+    entity names the module's definition sequence EXISTS and is a permutation of its defined types, entities, functions and
+    rules: no hypothesis "when it returns" is left. -/
+theorem C12_python_module_order_total (types : List PyModule.T) (es : List GenPy.Entity) (funcs rules : List String)
+    (ht : (types.map (·.name)).Nodup) (he : (es.map (·.name)).Nodup) :
+    ∃ l, PyModule.order types es (es.map (·.name)) (es.length + 1) funcs rules = some l ∧
+         l.Perm (types.map (·.name) ++ es.map (·.name) ++ funcs ++ rules) := by
+  obtain ⟨ents, ho⟩ := GenPy.EntityOrder.order_returns es (es.map (·.name))
+  have hsome : PyModule.order types es (es.map (·.name)) (es.length + 1) funcs rules
+      = some (PyModule.typesBeforeEntities types ++ ents ++ funcs ++ rules ++ PyModule.typesAfterEntities types) := by
+    unfold PyModule.order
+    rw [ho]
+    rfl
+  exact ⟨_, hsome, C12_python_module_defines_each_name_once types es funcs rules ht he _ _ hsome⟩
 
 /-- the hypothesis is satisfiable: a diamond (`d` under `b` and `c`, both under `a`) plus an entity with a supertype outside the
     scope; the module order is returned and is the permutation the theorem speaks of -/
